@@ -81,15 +81,20 @@ impl<K: Clone + PartialEq + Eq + Hash + std::fmt::Debug + std::cmp::PartialOrd, 
         while r.len() + wlen > self.limit {
             let res = self.__pop_lru(&mut r);
 
-            if let Some(val) = res {
-                log::warn!(
-                    "lru cache eviction, type {} dirty {}",
-                    crate::helpers::qcow2_type_of(&val.1),
-                    val.1.is_dirty()
-                );
-                if val.1.is_dirty() {
-                    vec.push(val);
+            match res {
+                Some(val) => {
+                    log::warn!(
+                        "lru cache eviction, type {} dirty {}",
+                        crate::helpers::qcow2_type_of(&val.1),
+                        val.1.is_dirty()
+                    );
+                    if val.1.is_dirty() {
+                        vec.push(val);
+                    }
                 }
+                // every entry is in use, so the limit is exceeded until
+                // next eviction
+                None => break,
             }
         }
 
@@ -186,21 +191,8 @@ impl<K: Clone + PartialEq + Eq + Hash + std::fmt::Debug + std::cmp::PartialOrd, 
                     }
                 });
 
-        if key_out.is_none() {
-            // it is safe to remove cache entry with active user, since the
-            // user holds the reference
-            (_, key_out) = map
-                .iter()
-                .fold((usize::MAX, None), |(min, key_out), (key, entry)| {
-                    let l = entry.lru.load(Ordering::Relaxed);
-                    if l < min {
-                        (l, Some(key.clone()))
-                    } else {
-                        (min, key_out)
-                    }
-                });
-        }
-
+        // one entry with active user can't be removed: the user keeps updating
+        // the removed copy, and the next lookup loads stale data from disk
         if key_out.is_none() {
             None
         } else {
